@@ -497,15 +497,17 @@ theorem step_valid_core (h : allValidateFirst = true) (k : Kind) (s : St) (op : 
         exact ⟨hd d rfl hg', hv.T, hv.Om⟩
   | setT3D t =>
       simp only [step, prog, ht3, exec_setter_true]
-      by_cases hc : check3D s.S s.A s.S t = true
-      · simp only [hc, if_true]
+      by_cases hc' : okT3D k.base s t = true
+      · have hc : check3D s.S s.A s.S t = true := by
+          simp only [okT3D, Bool.and_eq_true] at hc'; exact hc'.1
+        simp only [hc', if_true]
         refine ⟨hv.disc, ?_, hv.Om⟩
         apply rowsOK_mk3
         intro a ha x hx
         have := (check3D_iff _ _ _ _).1 hc x hx a ha
         have hst := stored_row k.base _ this
         simpa [rowOf, List.map_map, Function.comp_def] using hst
-      · simpa [hc] using hv
+      · simpa [hc'] using hv
   | setTEigen t =>
       simp only [step, prog, hte, exec_setter_true]
       by_cases hc : checkEigen k.base t = true
@@ -515,15 +517,17 @@ theorem step_valid_core (h : allValidateFirst = true) (k : Kind) (s : St) (op : 
   | setREigen r => simp only [step, prog, exec]; exact ⟨hv.disc, hv.T, hv.Om⟩
   | setO3D o =>
       simp only [step, prog, ho3, exec_setter_true]
-      by_cases hc : check3D s.S s.A s.O o = true
-      · simp only [hc, if_true]
+      by_cases hc' : okO3D k.obs s o = true
+      · have hc : check3D s.S s.A s.O o = true := by
+          simp only [okO3D, Bool.and_eq_true] at hc'; exact hc'.1
+        simp only [hc', if_true]
         refine ⟨hv.disc, hv.T, ?_⟩
         apply rowsOK_mk3
         intro a ha x hx
         have := (check3D_iff _ _ _ _).1 hc x hx a ha
         have hst := stored_row k.obs _ this
         simpa [rowOf, List.map_map, Function.comp_def] using hst
-      · simpa [hc] using hv
+      · simpa [hc'] using hv
   | setOEigen o =>
       simp only [step, prog, hoe, exec_setter_true]
       by_cases hc : checkEigen k.obs o = true
